@@ -1,8 +1,586 @@
-//! C30 — not built yet.
+//! C30 — jq programs never crash the process (DESIGN §4 C30).
+//!
+//! Subject: `jq::parse`, `jq::parse_program`, `parse_with_mode(Yq)`, `parse_program_with_mode(Yq)`
+//! on every program text; if `jq::parse` accepts it, the library evaluator (`jq::eval`) and the
+//! generic evaluator (`eval_generic::eval_with_cursor`, the CLI's) on a generated input. Allowed
+//! outcomes: outputs, a jq error, break/halt, a parse error. A panic (caught in the worker, with
+//! location), a stack overflow, an abort, or an allocation request >= 2^40 bytes is a violation.
+//! A case that makes no progress for the watchdog period is killed and discarded (the statement
+//! excludes non-terminating programs); an allocation failure < 2^40 bytes under the 6 GiB
+//! address-space limit is discarded as inconclusive. A fraction of cases is also run through
+//! `succinctly jq -c -f <file> <input>` (exit status 101 / death by signal = crash).
+//!
+//! Abort-prone programs (huge numeric operands, `infinite`, >= 100 levels of nesting) that parse are
+//! run through the CLI *first* (under `ulimit -v` 6 GiB): a CLI death gives the abort a minimised,
+//! narrow signature `C30/cli-abort/<kind>/<culprit>` and keeps the worker alive; everything else
+//! that kills a worker is reported by the engine as `C30/<sub>/process-abort/<kind>`.
+//! Signatures of caught panics: `C30/<stage>/panic@<file>/<message, digits -> N>/<culprit>` where the
+//! culprit is the last builtin (or the operators) left after AST + token delta debugging.
+//!
+//! Development aids (never set by run.sh): `VH_C30_SHOW=<entropy replay>` prints the case without
+//! running it (process-abort replays carry no description because the worker died);
+//! `VH_C30_COLLECT=<file>` appends failures instead of stopping; `VH_C30_TRACE=<dir>` leaves the
+//! filter of every unfinished case behind; `VH_C30_DUMP_SNIPPETS=1` lists the hostile snippets.
+use crate::cli;
 use crate::engine::*;
+use crate::gen::jqprog::{self, Cfg, Profile, Prog};
+use crate::gen::json::{self as gjson, GenOpts, KeyPalette, StrPalette, J};
+use crate::isolate::IsoOpts;
+use crate::props::c23::{run_full, run_generic, Outcome};
+use serde_json::{json, Value};
+use succinctly::jq::{self, ParserMode};
 
-pub const RULE: &str = "not built";
+pub const RULE: &str = "G-jqprog *hostile*: typed programs with extreme operands (infinite, nan, 1e19, -0, 9007199254740993, 1e1000, i64 edges, repeat counts <= 1e5 or >= 1e15), ~900 hostile snippets (string repetition, implode, splits/sub with empty regex, tojson of deep values, getpath/setpath/slice assignment with huge indices, dates with extreme inputs, @base64d/fromjson/tonumber of garbage, limit/first/nth edge counts, label/break, def recursion, reduce/foreach edge cases) composed with generated pieces, one construct nested up to 5 000 levels (51 nesting forms), token soups over a 300-token alphabet, 1-3 edit mutants of the 487 jq-golden filters, generated programs with non-ASCII/control characters spliced into the text; x small G-json inputs (sometimes 100-400 levels deep). Non-trivial: program that parses and contains an extreme operand or >= 50 levels of nesting; distinct by hash(program text, input).";
+
+const GOLDEN_DIR: &str = "/repo/tests/data/jq-golden/cases";
+
+pub fn load_seeds() -> Vec<String> {
+    let mut v = vec![];
+    if let Ok(rd) = std::fs::read_dir(GOLDEN_DIR) {
+        let mut dirs: Vec<_> = rd.filter_map(|e| e.ok()).map(|e| e.path()).collect();
+        dirs.sort();
+        for d in dirs {
+            if let Ok(f) = std::fs::read_to_string(d.join("filter")) {
+                let f = f.trim().to_string();
+                if !f.is_empty() && f.len() < 400 {
+                    v.push(f);
+                }
+            }
+        }
+    }
+    v
+}
+
+fn norm_msg(m: &str) -> String {
+    let mut out = String::new();
+    let mut in_num = false;
+    // keep the fixed part of the message: std messages quote data after `;`, a backtick or a quote
+    let m = m.split(|c| c == ';' || c == '`' || c == '\'' || c == '"').next().unwrap_or(m);
+    for c in m.chars().take(90) {
+        if c.is_ascii_digit() {
+            if !in_num {
+                out.push('N');
+            }
+            in_num = true;
+        } else {
+            in_num = false;
+            out.push(if c.is_ascii_alphanumeric() || " :_-.()".contains(c) { c } else { '?' });
+        }
+    }
+    out.trim().replace(' ', "-")
+}
+
+fn is_nesting_guard(msg: &str) -> bool {
+    msg.starts_with("nesting depth exceeds limit of")
+}
+
+/// Could this (program, input) really reach nesting >= 256? (sound over-approximation: only then is
+/// the documented `nesting depth exceeds limit of N` guard panic tolerated)
+fn deep_capable(text: &str, input_depth: usize, nest: usize) -> bool {
+    if input_depth >= 200 || nest >= 100 || text.bytes().filter(|b| *b == b'[' || *b == b'{').count() >= 100 {
+        return true;
+    }
+    const LOOPS: &[&str] = &["reduce", "foreach", "recurse", "repeat", "while", "until", "range", "limit", "def ", "..", "setpath", "fromjson", "walk", "paths", "getpath", "tostream", "fromstream", "*", "tojson", "flatten", "combinations", "transpose", "input"];
+    LOOPS.iter().any(|k| text.contains(k))
+}
+
+/// Builtin names and operators of a (minimised) program: strings, numbers, field names and variables
+/// are dropped so that the same defect keeps the same signature whatever data triggered it.
+fn culprit(text: &str) -> String {
+    let toks = lex(text);
+    let mut v: Vec<String> = vec![];
+    let mut prev = String::new();
+    for t in &toks {
+        let c0 = t.chars().next().unwrap_or(' ');
+        let keep = if c0 == '"' || c0.is_ascii_digit() || c0 == '$' || c0 == ' ' || matches!(t.as_str(), "infinite" | "nan" | "null" | "true" | "false") {
+            false
+        } else if c0.is_ascii_alphabetic() || c0 == '_' || c0 == '@' {
+            prev != "."
+        } else {
+            "*+-/%=:?".contains(c0)
+        };
+        if keep && !v.contains(t) {
+            v.push(t.clone());
+        }
+        prev = t.clone();
+    }
+    // control wrappers are never the crash site; operators only matter when no builtin is left
+    v.retain(|t| t != "try" && t != "catch");
+    if v.iter().any(|t| t.chars().next().map_or(false, |c| c.is_ascii_alphabetic() || c == '@' || c == '_')) {
+        v.retain(|t| t.chars().next().map_or(false, |c| c.is_ascii_alphabetic() || c == '@' || c == '_'));
+    }
+    let is_id = |t: &String| t.chars().next().map_or(false, |c| c.is_ascii_alphabetic() || c == '@' || c == '_');
+    if v.iter().any(is_id) {
+        // pipelines crash in their last stage: the last builtin left after minimisation names it
+        return v.iter().rev().find(|t| is_id(t)).cloned().unwrap_or_default();
+    }
+    v.truncate(4);
+    if v.is_empty() {
+        "-".into()
+    } else {
+        v.join("")
+    }
+}
+
+/// Two-phase minimisation: AST reductions first (drops whole wrappers / composed pieces cheaply),
+/// then token-level ddmin on the remaining text.
+fn minimize_prog(prog: &Prog, pred: &dyn Fn(&str) -> bool, max_evals: usize, early: &dyn Fn(&str) -> bool) -> String {
+    let mut text = prog.text.clone();
+    let structured = !matches!(&prog.ast, jqprog::E::Raw(_, _, tag) if *tag == "rawtext");
+    let mut evals = 0;
+    if structured {
+        let mut best = prog.ast.clone();
+        'outer: loop {
+            for cand in jqprog::shrink_candidates(&best) {
+                if evals >= max_evals / 2 {
+                    break 'outer;
+                }
+                let t = jqprog::print(&cand);
+                evals += 1;
+                if pred(&t) {
+                    if early(&t) {
+                        return t;
+                    }
+                    best = cand;
+                    continue 'outer;
+                }
+            }
+            break;
+        }
+        text = jqprog::print(&best);
+    }
+    minimize_text(&text, pred, max_evals.saturating_sub(evals).max(20), early)
+}
+
+fn lex(text: &str) -> Vec<String> {
+    let mut toks = vec![];
+    let cs: Vec<char> = text.chars().collect();
+    let mut i = 0;
+    while i < cs.len() {
+        let c = cs[i];
+        let mut j = i + 1;
+        if c.is_ascii_alphanumeric() || c == '_' || c == '$' || c == '@' {
+            while j < cs.len() && (cs[j].is_ascii_alphanumeric() || cs[j] == '_' || cs[j] == '.' && c.is_ascii_digit()) {
+                j += 1;
+            }
+        } else if c == '"' {
+            while j < cs.len() && cs[j] != '"' {
+                if cs[j] == '\\' {
+                    j += 1;
+                }
+                j += 1;
+            }
+            j = (j + 1).min(cs.len());
+        } else if c == ' ' {
+            while j < cs.len() && cs[j] == ' ' {
+                j += 1;
+            }
+        }
+        toks.push(cs[i..j.min(cs.len())].iter().collect());
+        i = j.min(cs.len()).max(i + 1);
+    }
+    toks
+}
+
+/// ddmin over tokens: smallest token subsequence for which `pred` still holds (bounded work).
+fn minimize_text(text: &str, pred: &dyn Fn(&str) -> bool, max_evals: usize, early: &dyn Fn(&str) -> bool) -> String {
+    let mut toks = lex(text);
+    if toks.len() > 400 {
+        return text.to_string();
+    }
+    let mut evals = 0;
+    let mut chunk = (toks.len() / 2).max(1);
+    while chunk >= 1 {
+        let mut i = 0;
+        let mut progressed = false;
+        while i < toks.len() {
+            if evals > max_evals {
+                return toks.concat();
+            }
+            let end = (i + chunk).min(toks.len());
+            let mut cand = toks.clone();
+            cand.drain(i..end);
+            evals += 1;
+            if !cand.is_empty() && pred(&cand.concat()) {
+                toks = cand;
+                progressed = true;
+                if early(&toks.concat()) {
+                    return toks.concat();
+                }
+            } else {
+                i += chunk;
+            }
+        }
+        if chunk == 1 && !progressed {
+            break;
+        }
+        chunk = if chunk > 1 { chunk / 2 } else { 1 };
+        if chunk == 1 && !progressed && toks.len() <= 1 {
+            break;
+        }
+    }
+    toks.concat()
+}
+
+#[derive(Clone, Debug, PartialEq)]
+struct Crash {
+    stage: &'static str,
+    loc: String,
+    msg: String,
+}
+
+/// Everything C30 does in-process with one (program text, input): None = no crash.
+fn crash_of(text: &str, input: &[u8]) -> (Option<Crash>, Option<(Outcome, Outcome)>, bool) {
+    let stages: [(&'static str, Box<dyn Fn() -> bool>); 4] = [
+        ("parse", Box::new(|| jq::parse(text).is_ok())),
+        ("parse_program", Box::new(|| jq::parse_program(text).is_ok())),
+        ("parse-yq", Box::new(|| jq::parse_with_mode(text, ParserMode::Yq).is_ok())),
+        ("parse_program-yq", Box::new(|| jq::parse_program_with_mode(text, ParserMode::Yq).is_ok())),
+    ];
+    for (name, f) in stages.iter() {
+        if let Err((loc, msg)) = catch(|| f()) {
+            return (Some(Crash { stage: name, loc, msg }), None, false);
+        }
+    }
+    let expr = match catch(|| jq::parse(text)) {
+        Ok(Ok(e)) => e,
+        _ => return (None, None, false),
+    };
+    let f = match run_full(&expr, input) {
+        Ok(o) => o,
+        Err((loc, msg)) => return (Some(Crash { stage: "eval-full", loc, msg }), None, true),
+    };
+    let g = match run_generic(&expr, input) {
+        Ok(o) => o,
+        Err((loc, msg)) => return (Some(Crash { stage: "eval-generic", loc, msg }), None, true),
+    };
+    (None, Some((f, g)), true)
+}
+
+/// panic location without line number, toolchain hash or registry prefix
+fn loc_sig(loc: &str) -> String {
+    let l = panic_sig(loc);
+    if l.starts_with("/rustc/") {
+        // inside the standard library: the exact file depends on the operand, not on the defect
+        return "std".to_string();
+    }
+    if let Some(i) = l.find("/registry/src/") {
+        return l[i + 14..].splitn(2, '/').nth(1).unwrap_or(&l).to_string();
+    }
+    l
+}
+
+fn crash_sig(c: &Crash, culprit: &str) -> String {
+    format!("C30/{}/panic@{}/{}/{}", c.stage, loc_sig(&c.loc), norm_msg(&c.msg), culprit)
+}
+
+fn same_crash(a: &Crash, b: &Crash) -> bool {
+    a.stage == b.stage && loc_sig(&a.loc) == loc_sig(&b.loc) && norm_msg(&a.msg) == norm_msg(&b.msg)
+}
+
+pub fn gen_input(u: &mut Src) -> J {
+    let o = GenOpts {
+        max_depth: u.range(0, 4),
+        max_nodes: u.range(1, 30),
+        dup_keys: u.ratio(1, 4),
+        strings: *u.pick(&[StrPalette::AsciiPlain, StrPalette::Ascii, StrPalette::Full]),
+        keys: *u.pick(&[KeyPalette::Ident, KeyPalette::Ident, KeyPalette::AsStrings, KeyPalette::Hostile]),
+        numbers: *u.pick(&[0u8, 1, 2, 2]),
+        max_str_len: 12,
+    };
+    let v = gjson::gen_value(u, &o);
+    if u.ratio(1, 40) {
+        let d = *u.pick(&[100usize, 200, 255, 256, 257, 300, 383, 384, 385, 400]);
+        return gjson::wrap_deep(u, v, d);
+    }
+    v
+}
+
+/// `succinctly jq -c -f <filter> <input>` under `ulimit -v` 6 GiB. None = timed out.
+fn run_cli(text: &str, input: &str) -> Option<cli::CliOut> {
+    let fp = cli::write_tmp("c30-filter", text.as_bytes());
+    let ip = cli::write_tmp("c30-input", input.as_bytes());
+    let cmd = format!("ulimit -v 6291456; ulimit -c 0; exec \"$0\" jq -c -f \"$1\" \"$2\"");
+    let out = cli::run_with("/bin/sh", &["-c", &cmd, &cli::cli_path(), fp.to_str().unwrap_or(""), ip.to_str().unwrap_or("")], None, std::time::Duration::from_secs(5), &[]);
+    let _ = std::fs::remove_file(&fp);
+    let _ = std::fs::remove_file(&ip);
+    if out.timed_out {
+        None
+    } else {
+        Some(out)
+    }
+}
+
+/// How a CLI run crashed: None = it did not (or only a plausible allocation failure).
+#[derive(Clone, Debug, PartialEq)]
+struct CliCrash {
+    how: String,
+    loc: String,
+    msg: String,
+    nesting_guard: bool,
+    signal: bool,
+}
+
+fn cli_crash(out: &cli::CliOut) -> Option<CliCrash> {
+    if !out.crashed() {
+        return None;
+    }
+    let err = out.stderr_str();
+    let mut how = match (out.code, out.signal) {
+        (_, Some(s)) => format!("signal-{}", s),
+        (Some(c), _) => format!("exit-{}", c),
+        _ => "?".into(),
+    };
+    if err.contains("overflowed its stack") {
+        how = "stack-overflow".into();
+    }
+    if let Some(i) = err.find("memory allocation of ") {
+        let n: String = err[i + 21..].chars().take_while(|c| c.is_ascii_digit()).collect();
+        match n.parse::<u128>() {
+            Ok(n) if n < (1u128 << 40) => return None, // plausible request that met the limit
+            _ => how = "impossible-allocation".into(),
+        }
+    }
+    let loc = err.split("panicked at ").nth(1).and_then(|r| r.split(|c| c == ',' || c == '\n').next()).unwrap_or("-").trim_end_matches(':').to_string();
+    let msg = err.lines().skip_while(|l| !l.contains("panicked at")).nth(1).unwrap_or("").to_string();
+    Some(CliCrash { how, loc, nesting_guard: err.contains("nesting depth exceeds limit of"), msg, signal: out.signal.is_some() })
+}
+
+fn check_prog(prog: &Prog, doc: &J, st: &mut Stats, cli_sample: bool, known: &[String]) -> Result<(), Fail> {
+    let input = gjson::to_compact(doc);
+    let text = &prog.text;
+    let depth = doc.depth();
+    st.describe(|| json!({"filter": text, "input": if input.len() < 4000 { input.clone() } else { format!("<{} bytes, depth {}>", input.len(), depth) }, "family": prog.family}));
+    st.size(text.len());
+    st.class(&format!("family:{}", prog.family));
+    st.evals(1);
+    if let Ok(dir) = std::env::var("VH_C30_TRACE") {
+        let _ = std::fs::write(format!("{}/{}-{}", dir, std::process::id(), st.cur_case), format!("{}\n<<< {}\n", text, input.chars().take(300).collect::<String>()));
+    }
+    // Programs that may abort the process (extreme operands, deep nesting) go through the CLI first:
+    // a separate process can die without taking the worker down, which gives aborts a narrow,
+    // minimised signature instead of the worker-level `process-abort/<kind>`.
+    let abort_prone = jqprog::big_number_in_text(text, 5) || text.contains("infinite") || prog.nest >= 100 || depth >= 100;
+    let mut cli_exit101: Option<CliCrash> = None;
+    // a program the in-process parser rejects is never evaluated, so it cannot abort the worker:
+    // no pre-screen needed (the sampled CLI run still happens). Deep-nesting programs are screened
+    // regardless, because there the parser itself is the abort candidate.
+    let parses_here = prog.nest >= 100 || matches!(catch(|| jq::parse(text).is_ok()), Ok(true) | Err(_));
+    if ((abort_prone && parses_here) || cli_sample) && cli::cli_available() && text.len() < 100_000 {
+        st.class("cli-run");
+        st.evals(1);
+        match run_cli(text, &input) {
+            None => {
+                st.class("cli-timeout-discarded");
+                st.discard();
+                return Ok(());
+            }
+            Some(out) => {
+                if let Some(c) = cli_crash(&out) {
+                    if c.nesting_guard && deep_capable(text, depth, prog.nest) {
+                        st.class("documented-nesting-guard-panic");
+                    } else if c.signal || c.how != "exit-101" {
+                        // abort: a listed finding is recognised without minimisation (each CLI crash is slow)
+                        let sig0 = format!("C30/cli-abort/{}/{}", c.how, culprit(text));
+                        if known.iter().any(|k| *k == sig0) {
+                            return Err(Fail::new(sig0, json!({"filter": text.chars().take(2000).collect::<String>(), "input": input.chars().take(4000).collect::<String>(), "cli": true})));
+                        }
+                        // otherwise minimise through the CLI, then report
+                        let pred = |t: &str| -> bool { run_cli(t, &input).and_then(|o| cli_crash(&o)).map_or(false, |c2| c2.how == c.how) };
+                        let how = c.how.clone();
+                        let early = |t: &str| -> bool { let s1 = format!("C30/cli-abort/{}/{}", how, culprit(t)); known.iter().any(|k| *k == s1) };
+                        let min = minimize_prog(prog, &pred, 150, &early);
+                        return Err(Fail::new(
+                            format!("C30/cli-abort/{}/{}", c.how, culprit(&min)),
+                            json!({"filter": min, "original_filter": text.chars().take(2000).collect::<String>(), "input": input.chars().take(4000).collect::<String>(), "exit": out.code, "signal": out.signal,
+                                   "stderr_tail": out.stderr_str().chars().take(400).collect::<String>(), "cli": true}),
+                        ));
+                    } else {
+                        cli_exit101 = Some(c);
+                    }
+                }
+            }
+        }
+    }
+    let (crash, outs, parsed) = crash_of(text, input.as_bytes());
+    st.class(if parsed { "parses" } else { "parse-error" });
+    if parsed {
+        st.evals(2);
+        st.class_if(prog.extreme, "extreme-operand");
+        st.class_if(prog.nest >= 50, "nesting>=50");
+        if prog.extreme || prog.nest >= 50 {
+            st.class("nontrivial");
+            st.nontrivial(hash_str(text) ^ hash_str(&input).rotate_left(17));
+        }
+    }
+    if let Some((f, g)) = &outs {
+        st.class(&format!("end:{}", f.end.kind()));
+        st.class_if(!f.outs.is_empty(), "has-outputs");
+        st.digest(hash_str(&format!("{:?}{:?}", f.end.kind(), g.end.kind())));
+        st.sample(prog.family, || json!({"filter": text.chars().take(300).collect::<String>(), "input": input.chars().take(200).collect::<String>(), "full": f.to_value()}));
+    }
+    if let Some(c) = crash {
+        if is_nesting_guard(&c.msg) && deep_capable(text, depth, prog.nest) {
+            st.class("documented-nesting-guard-panic");
+            st.sample("nesting-guard", || json!({"filter": text.chars().take(300).collect::<String>(), "stage": c.stage, "loc": c.loc, "msg": c.msg}));
+            return Ok(());
+        }
+        // minimise the program text while the same crash persists; culprit = its identifiers
+        let pred = |t: &str| -> bool { matches!(crash_of(t, input.as_bytes()).0, Some(ref c2) if same_crash(&c, c2)) };
+        let min = minimize_prog(prog, &pred, 600, &|_| false);
+        return Err(Fail::new(
+            crash_sig(&c, &culprit(&min)),
+            json!({"filter": min, "original_filter": text.chars().take(2000).collect::<String>(), "input": input.chars().take(4000).collect::<String>(), "stage": c.stage, "panic_location": c.loc, "panic_message": c.msg}),
+        ));
+    }
+    if let Some(c) = cli_exit101 {
+        // the release CLI panicked where the in-process evaluation did not
+        return Err(Fail::new(
+            format!("C30/cli/exit-101/{}/{}/{}", loc_sig(&c.loc), norm_msg(&c.msg), if text.len() < 200 { culprit(text) } else { "-".into() }),
+            json!({"filter": text.chars().take(2000).collect::<String>(), "input": input.chars().take(4000).collect::<String>(), "panic_location": c.loc, "panic_message": c.msg, "cli": true}),
+        ));
+    }
+    Ok(())
+}
+
+/// The case of sub-check `sub` decoded from entropy: (program, input document, sample through the CLI?)
+pub fn gen_case(sub: &str, u: &mut Src, cfg: &Cfg, seeds: &[String]) -> (Prog, J, bool) {
+    let (p, doc, c) = gen_case0(sub, u, cfg, seeds);
+    // Deep inputs make the CLI stop at its documented nesting guard before the program runs, so the
+    // CLI pre-screen says nothing about an abort-prone program there: pair those with shallow input.
+    if (p.extreme || jqprog::extreme_in_text(&p.text)) && doc.depth() >= 100 {
+        return (p, J::Arr(vec![J::int(1), J::Str("a".into()), J::Null]), c);
+    }
+    (p, doc, c)
+}
+
+fn gen_case0(sub: &str, u: &mut Src, cfg: &Cfg, seeds: &[String]) -> (Prog, J, bool) {
+    let doc = gen_input(u);
+    match sub {
+        "gen" => {
+            let p = if u.ratio(1, 4) { jqprog::text_hostile(u, &doc, cfg) } else { jqprog::gen_program(u, &doc, cfg) };
+            let c = u.ratio(1, 16);
+            (p, doc, c)
+        }
+        "extreme" => {
+            let p = jqprog::snippet_program(u, &doc, cfg);
+            let c = u.ratio(1, 16);
+            (p, doc, c)
+        }
+        "deep" => {
+            let p = jqprog::deep_program(u);
+            let c = u.ratio(1, 10);
+            (p, doc, c)
+        }
+        "soup" => {
+            let p = jqprog::soup_program(u);
+            let c = u.ratio(1, 20);
+            (p, doc, c)
+        }
+        _ => {
+            let p = jqprog::mutant_program(u, seeds);
+            let c = u.ratio(1, 20);
+            (p, doc, c)
+        }
+    }
+}
+
+fn replay_input(v: &Value) -> Option<Fail> {
+    let filter = v["input"]["filter"].as_str().unwrap_or(".").to_string();
+    let input = v["input"]["input"].as_str().unwrap_or("null");
+    let doc = crate::oracle::jsonval::parse_one(input.as_bytes()).unwrap_or(J::Null);
+    let mut prog = jqprog::prog_of(jqprog::E::raw(filter.clone()), true, "replay");
+    prog.text = filter;
+    let mut st = Stats::default();
+    // abort replays would kill this (parent) process if evaluated in-process: CLI only
+    if v["input"]["cli_only"].as_bool().unwrap_or(false) {
+        if !cli::cli_available() {
+            return None;
+        }
+        let out = run_cli(&prog.text, input)?;
+        let c = cli_crash(&out)?;
+        return Some(Fail::new(
+            format!("C30/cli-abort/{}/{}", c.how, culprit(&prog.text)),
+            json!({"filter": prog.text, "input": input, "exit": out.code, "signal": out.signal, "stderr_tail": out.stderr_str().chars().take(300).collect::<String>()}),
+        ));
+    }
+    let cli_too = v["input"]["cli"].as_bool().unwrap_or(false);
+    check_prog(&prog, &doc, &mut st, cli_too, &[]).err()
+}
 
 pub fn run(cx: &mut Ctx) {
-    cx.infra("check not built");
+    cx.assume("workers run each case on the process main thread (8 MiB stack, like the CLI) under RLIMIT_AS = 6 GiB; the harness build has overflow-checks and debug-assertions on, the sampled CLI is the release build");
+    cx.assume("a panic whose message is the documented guard `nesting depth exceeds limit of N` (MAX_NESTING_DEPTH 256 / MAX_VALUE_TREE_DEPTH 384, doc comments in src/jq/eval_generic.rs and src/jq/value.rs) is tolerated only when the input is >= 200 levels deep or the program can build deep values (loops, recursion, >= 100 levels of literal nesting); watchdog expiry and allocation failures < 2^40 bytes are discarded");
+    let seeds = load_seeds();
+    if std::env::var("VH_C30_DUMP_SNIPPETS").is_ok() {
+        for sn in jqprog::HOSTILE_SNIPPETS {
+            println!("{}", sn);
+        }
+        return;
+    }
+    // development aid: VH_C30_SHOW=<entropy replay file> prints the case without running it
+    if let Ok(p) = std::env::var("VH_C30_SHOW") {
+        if let Ok(v) = serde_json::from_str::<Value>(&std::fs::read_to_string(&p).unwrap_or_default()) {
+            let ent = unhex(v["entropy_hex"].as_str().unwrap_or(""));
+            let mut u = Src::new(&ent);
+            let mut cfg = Cfg::new(Profile::Hostile);
+            cfg.max_depth = 4;
+            let (pr, doc, c) = gen_case(v["subcheck"].as_str().unwrap_or("gen"), &mut u, &cfg, &seeds);
+            println!("{}", json!({"filter": pr.text, "input": gjson::to_compact(&doc), "family": pr.family, "cli": c}));
+        }
+        return;
+    }
+    if seeds.len() < 400 {
+        cx.infra(format!("golden filters not found under {} ({} read)", GOLDEN_DIR, seeds.len()));
+        return;
+    }
+    for (name, v) in cx.replays.clone() {
+        if v["kind"] == "input" {
+            let r = replay_input(&v);
+            cx.replay_outcome(&name, r);
+        }
+    }
+    let mut cfg = Cfg::new(Profile::Hostile);
+    cfg.max_depth = 4;
+    let thorough = cx.tier == Tier::Thorough;
+    let iso = |chunk: u64| IsoOpts { watchdog_s: if thorough { 60 } else { 30 }, rlimit_as_gib: 6, chunk, hang_is_inconclusive: false };
+    let cfg = &cfg;
+    let seeds = &seeds;
+    let known_v: Vec<String> = cx.known.iter().filter(|k| k.status == "known").map(|k| k.signature.clone()).collect();
+    let known = &known_v;
+
+    for (sub, quick, thorough, max_len, chunk) in [("gen", 5_000u64, 1_000_000u64, 1400usize, 160u64), ("extreme", 2_500, 400_000, 1400, 80), ("deep", 800, 100_000, 600, 25), ("soup", 5_000, 600_000, 600, 160), ("mutant", 4_000, 600_000, 600, 125)] {
+        cx.check_isolated(sub, RULE, Budget { quick, thorough, max_len }, iso(chunk), |u, st| {
+            let (p, doc, cli_s) = gen_case(sub, u, cfg, seeds);
+            let r = check_prog(&p, &doc, st, cli_s, known);
+            if let Ok(dir) = std::env::var("VH_C30_TRACE") {
+                let _ = std::fs::remove_file(format!("{}/{}-{}", dir, std::process::id(), st.cur_case));
+            }
+            if let (Err(f), Ok(path)) = (&r, std::env::var("VH_C30_COLLECT")) {
+                use std::io::Write;
+                if let Ok(mut fh) = std::fs::OpenOptions::new().create(true).append(true).open(path) {
+                    let _ = writeln!(fh, "{}\t{}", f.sig, f.detail);
+                }
+                return Ok(());
+            }
+            r
+        });
+    }
+    cli::cleanup();
+    sweep_dead_tmp(&cx.root);
+    for (sub, cl, min) in [("gen", "nontrivial", 100), ("gen", "parses", 1000), ("extreme", "nontrivial", 200), ("extreme", "end:error", 100), ("deep", "nesting>=50", 50), ("deep", "parse-error", 50), ("soup", "parse-error", 500), ("mutant", "parses", 300), ("mutant", "parse-error", 300)] {
+        cx.require_class(sub, cl, min);
+    }
+}
+
+/// Worker processes leave their (empty) CLI scratch directories behind: remove those of dead pids.
+fn sweep_dead_tmp(root: &str) {
+    if let Ok(rd) = std::fs::read_dir(format!("{}/out/tmp", root)) {
+        for e in rd.filter_map(|e| e.ok()) {
+            let name = e.file_name().to_string_lossy().to_string();
+            if name.chars().all(|c| c.is_ascii_digit()) && !std::path::Path::new(&format!("/proc/{}", name)).exists() {
+                let _ = std::fs::remove_dir_all(e.path());
+            }
+        }
+    }
 }
